@@ -365,7 +365,7 @@ def proj_node(R, node):
          "ned": tk(node.next_event_date, "ned"),
          "net": node.next_event_type if node.next_event_type is not None else "none",
          "nei": nei,
-         "shd": INF, "shc": 0,
+         "shd": INF, "shc": 0, "shi": 0,
          "ot": [tk(v, "overtime") for v in node.overtime],
          "nccd": tk(getattr(node, "next_class_change_date", float("inf")), "nccd"),
          "ncci": (lambda x: x.id_number if x is not None else 0)(getattr(node, "next_class_change_ind", None)),
@@ -373,6 +373,8 @@ def proj_node(R, node):
          }
     sc = node.schedule
     if sc is not None:
+        fr = getattr(sc.schedule_generator, "gi_frame", None)
+        d["shi"] = int(fr.f_locals.get("index", 0)) if fr is not None else NONE
         if sc.schedule_type == "slotted":
             d["shd"] = tk(sc.next_slot_date, "slotdate")
             d["shc"] = iv(sc.slot_size)
@@ -401,7 +403,7 @@ def proj_cust(R, ind):
     else:
         node = R.Q.nodes[ind.node] if isinstance(ind.node, int) and ind.node > 0 else None
         alive = node is not None and hasattr(node, "servers") and any(s is srv for s in node.servers)
-        sv = srv.id_number if alive else -2
+        sv = srv.id_number if alive else -(100 + srv.id_number)
     st = ind.service_time
     d = {"id": ind.id_number, "loc": iv(ind.node),
          "cls": R.ci(ind.customer_class), "pcls": R.ci(ind.previous_class), "ocls": R.ci(ind.original_class),
